@@ -13,13 +13,13 @@ import (
 )
 
 type SolveResult struct {
-	Status  string // unsat sat unknown timeout error
-	Solver  string
-	Seconds float64
-	Model   string
-	Raw     string
-	Second  string // confirming solver (thorough tier)
-	Candidate bool // model obtained without the quantified axioms
+	Status    string // unsat sat unknown timeout error
+	Solver    string
+	Seconds   float64
+	Model     string
+	Raw       string
+	Second    string // confirming solver (thorough tier)
+	Candidate bool   // model obtained without the quantified axioms
 }
 
 type solverSpec struct {
